@@ -190,7 +190,7 @@ theorem phase_twin_first (s c : Sys) (hg : Good iss s) (ta tb : Tcb) (hc : Calm 
     rw [hta', receive_established ta1 a_st]
     exact fA.one
   have hidle' : IdleB ta' tb' := by
-    refine ⟨hoa', by rw [ptb, tbt]; simp, ?_⟩
+    refine ⟨by rw [ptb, tbt]; simp, ?_⟩
     refine keepOk_empty tb' (hg'.ext.tcb .B tb' hs'.hb).keep ((hg'.conv.full.inv.link .B).snd tb' hs'.hb).1
       (hg'.sent_lt .B tb' hs'.hb) ?_
     rcases hs'.b.lastack with h | ⟨h, hl, _⟩
